@@ -1,40 +1,50 @@
 """C16 -- byte-order conversion preserves values and declares the requested order.
 
 R16.1 copy / in-place discipline per (converter x inplace x keep_dtype) via the
-effect analysis; R16.2 swap <-> dtype-flip pairing; R16.3 decision polarity in
-field loops; R16.4 predicate decision tables over the four machine-order
+effect analysis; R16.2 swap <-> dtype-flip pairing; R16.3 swap decision on
+structured arrays; R16.4 predicate decision tables over the four machine-order
 spellings x host order; R16.5 descriptor strippers; R16.6 the two to-native
 implementations agree.
+
+R16.2 - R16.6 are decided by evaluating the parsed functions (nothing of /repo
+is imported or run) on a finite model of numpy's dtype / ndarray objects, for
+every input of a finite domain: the rule is a statement about what the function
+does to the model, so it does not depend on how the function is laid out
+(loop vs any(), early return vs if/else, helpers extracted or inlined, named
+temporaries).  Code that leaves the model gives "not recognised" (no verdict).
 """
 import ast
 
 from vcheck import effects, rules
-from vcheck.cfg import eval_test
-from vcheck.core import PyRepo, AnalysisError, call_name, dotted_name, kwarg, norm, walk_no_nested
+from vcheck.core import PyRepo, AnalysisError, call_name, kwarg, norm, walk_no_nested
 from vcheck.ctable import c_summaries
-from vcheck.rules import cfg_of
 
 MANIFEST = dict(
     text="Structural rule checking (not a behavioural proof): (1) effect/alias analysis specialised on every (converter, inplace, "
          "keep_dtype) combination decides that inplace=False returns a fresh object on every path (including the nothing-to-swap "
-         "path) and never writes the argument, and that inplace=True returns the argument itself on every path; (2) the dtype flip "
-         "is control dependent on exactly `not keep_dtype` and paired with the swap; (3) in structured-array field loops the swap "
-         "decision rests on a positive result of the opposite-order predicate (string and one-byte fields are neither order); "
-         "(4) the endianness predicates are evaluated exhaustively over {'<','>','=','|'} x host order and compared with the "
-         "decision table; (5) the three descriptor strippers drop exactly the order character and keep name and shape; (6) both "
-         "to-native implementations swap iff machine order xor data order.",
+         "path) and never writes the argument, and that inplace=True returns the argument itself on every path; (2)-(6) the parsed "
+         "functions (and the private helpers they call) are evaluated on a finite model of dtype / ndarray objects (declared order "
+         "character per field, sub-array and structured dtypes, a buffer that records how often it was swapped) for every declared "
+         "order spelling x host order x field layout x option flags: (2) byteswap swaps the bytes once, in the caller's buffer "
+         "exactly when inplace, and flips the dtype of the object holding them exactly when keep_dtype is off; (3) on structured "
+         "arrays each converter leaves the data in the requested order wherever the first field with a byte order sits, string and "
+         "one-byte fields being neither order and sub-array fields counting with the order of their items; (4) the endianness "
+         "predicates reproduce the decision table over {'<','>','=','|'} x host order; (5) the three descriptor strippers drop "
+         "exactly the order character and keep name and shape; (6) both to-native implementations swap iff machine order xor data "
+         "order.",
     note="Not decided: numpy's byteswap/newbyteorder semantics (trusted), value preservation numerically. Arrays whose multi-byte "
          "fields share one order are assumed (property quantifier).",
-    technique="static analysis: flag-specialised alias/effect analysis, control-dependence rules, exhaustive abstract evaluation of predicates over a finite domain",
+    technique="static analysis: flag-specialised alias/effect analysis, exhaustive abstract evaluation of the parsed functions over a finite model domain",
 )
 
 NU = "esutil.numpy_util."
 CONVERTERS = ["to_native", "to_big_endian", "to_little_endian", "byteswap"]
 
 
-# rules that keep their verdict however the code is laid out (decided by term equality, effect analysis or dominance over
-# resolved calls); every other rule of this check is a template rule (vcheck.core.Check.obt)
-SEMANTIC = ('R16.1a', 'R16.1b', 'R16.1c', 'R16.1d', 'R16.2', 'R16.3', 'R16.6')
+# rules that keep their verdict however the code is laid out (decided by the effect analysis or by evaluation over the finite
+# model: a failing instance is a completed evaluation that contradicts the rule, code outside the model gives "not recognised");
+# every other rule of this check is a template rule (vcheck.core.Check.obt)
+SEMANTIC = ('R16.1a', 'R16.1b', 'R16.1c', 'R16.1d', 'R16.2', 'R16.3', 'R16.4', 'R16.5', 'R16.6')
 
 
 def run(chk):
@@ -42,7 +52,8 @@ def run(chk):
     chk.set_templates(repo, semantic=SEMANTIC)
     eng = effects.Effects(repo, c_summaries())
     chk.explanation = MANIFEST["text"]
-    chk.trusted = ["ndarray.byteswap / dtype.newbyteorder semantics", "library semantics table", "CPython ast"]
+    chk.trusted = ["ndarray.byteswap / dtype.newbyteorder semantics (the dtype / ndarray model of this module)", "library semantics table", "CPython ast",
+                   "isstring(x) is 'x is a (byte) string'"]
     chk.assume("multi-byte fields of a structured array share one byte order (property quantifier)")
     chk.floor = 60
     r16_1(chk, repo, eng)
@@ -94,6 +105,9 @@ def r16_1(chk, repo, eng):
     # forwarding of the two options into the shared swapper
     for name in CONVERTERS[:3]:
         fi = repo.func(NU + name)
+        if not any(isinstance(x, ast.Call) and call_name(x) == "byteswap" and isinstance(x.func, ast.Name) for x in walk_no_nested(fi.node)):
+            # the swap call sits in a helper: decide the forwarding by evaluation over the model
+            _forwarding_by_model(chk, repo, name)
         for x in walk_no_nested(fi.node):
             if isinstance(x, ast.Call) and call_name(x) == "byteswap" and isinstance(x.func, ast.Name):
                 a_ok = x.args and norm(x.args[0]) == "array"
@@ -103,181 +117,1395 @@ def r16_1(chk, repo, eng):
                        fi.where(x), "%s forwards (array, inplace, keep_dtype) to byteswap unchanged" % name)
 
 
+# ---------------------------------------------------------------------------
+# Finite model of the numpy objects the byte-order code handles, and an evaluator of the repository's (parsed, never
+# imported) functions over that model.  Rules R16.2 - R16.6 are stated on what a function *does* to the model on every
+# input of a finite domain (declared order spelling x host order x field layout x option flags), not on how it is
+# written: loops, any()/comprehensions, early returns, swapped arms, named temporaries and private helpers (calls are
+# followed) all evaluate to the same thing.  Anything outside the model raises _Unrec: "construct not recognised", no
+# verdict.  A verdict False is only given when the evaluation ran to completion and contradicts the rule.
+# ---------------------------------------------------------------------------
+
+class _Unrec(Exception):
+    """the code uses something the model does not cover: no verdict"""
+
+
+class _Raised(Exception):
+    """the analysed code raises on this input"""
+
+
+class _Return(Exception):
+    def __init__(self, value):
+        self.value = value
+
+
+class _Break(Exception):
+    pass
+
+
+class _Continue(Exception):
+    pass
+
+
+def _resolve(order, host_little):
+    """'L' / 'B' / None (no byte order) for an order character on the given host"""
+    if order == "<":
+        return "L"
+    if order == ">":
+        return "B"
+    if order == "=":
+        return "L" if host_little else "B"
+    return None
+
+
+def _other(o):
+    return {"L": "B", "B": "L"}.get(o)
+
+
+class _Fn:
+    """a callable the evaluator is allowed to call natively (model methods, whitelisted builtins)"""
+
+    def __init__(self, fn, name=""):
+        self.fn = fn
+        self.name = name
+
+    def __call__(self, *a, **k):
+        return self.fn(*a, **k)
+
+
+class MType:
+    """a numpy class used as constructor and/or isinstance() class"""
+
+    def __init__(self, name, ctor=None, check=None):
+        self.name = name
+        self.ctor = ctor
+        self.check = check or (lambda v: False)
+
+    def __call__(self, *a, **k):
+        if self.ctor is None:
+            raise _Unrec("numpy.%s() is not modelled" % self.name)
+        return self.ctor(*a, **k)
+
+
+class MDtype:
+    """numpy dtype: plain (order character + type code), sub-array (base, shape) or structured (ordered fields)"""
+
+    def __init__(self, host, order="|", code="S4", sub=None, fields=None):
+        self.host = host
+        self.order = order
+        self.code = code
+        self.sub = sub            # (MDtype, shape)
+        self.fields = fields      # [(name, MDtype)]
+
+    # -- helpers (not visible to the analysed code)
+    def key(self):
+        if self.fields is not None:
+            return ("struct", tuple((n, d.key()) for n, d in self.fields))
+        if self.sub is not None:
+            return ("sub", self.sub[0].key(), tuple(self.sub[1]))
+        return ("plain", _resolve(self.order, self.host), self.code)
+
+    def leaves(self):
+        if self.fields is not None:
+            return [x for _, d in self.fields for x in d.leaves()]
+        if self.sub is not None:
+            return self.sub[0].leaves()
+        return [self]
+
+    def orders(self):
+        """resolved orders of the multi-byte leaves"""
+        return {_resolve(x.order, self.host) for x in self.leaves()} - {None}
+
+    def typestr(self):
+        if self.fields is not None or self.sub is not None:
+            return "|V%d" % self.nbytes()
+        o = self.order
+        if o == "=":
+            o = "<" if self.host else ">"
+        return o + self.code
+
+    def nbytes(self):
+        if self.fields is not None:
+            return sum(d.nbytes() for _, d in self.fields)
+        if self.sub is not None:
+            n = self.sub[0].nbytes()
+            for s in self.sub[1]:
+                n *= s
+            return n
+        return int(self.code[1:])
+
+    def __eq__(self, other):
+        if isinstance(other, MDtype):
+            return self.key() == other.key()
+        if other is None or isinstance(other, (bool, int)):
+            return False
+        raise _Unrec("comparison of a dtype with %r" % (other,))
+
+    def __ne__(self, other):
+        return not self.__eq__(other)
+
+    def __hash__(self):
+        return hash(self.key())
+
+    def __len__(self):
+        return len(self.fields) if self.fields is not None else 0
+
+    def __repr__(self):
+        if self.fields is not None:
+            return "dtype(%s)" % self.descr()
+        if self.sub is not None:
+            return "dtype((%r, %r))" % (self.sub[0].typestr(), tuple(self.sub[1]))
+        return "dtype(%r)" % (self.order + self.code)
+
+    def descr(self):
+        if self.fields is None:
+            raise _Unrec("descr of a dtype without fields")
+        out = []
+        for n, d in self.fields:
+            if d.sub is not None:
+                out.append((n, d.sub[0].typestr(), tuple(d.sub[1])))
+            else:
+                out.append((n, d.typestr()))
+        return out
+
+    def newbyteorder(self, new_order="S"):
+        if not isinstance(new_order, str) or not new_order:
+            raise _Unrec("newbyteorder(%r)" % (new_order,))
+        c = new_order[0].lower()
+        act = {"s": "S", "<": "<", "l": "<", ">": ">", "b": ">", "=": "=", "n": "=", "|": "|", "i": "|"}.get(c)
+        if act is None:
+            raise _Raised("newbyteorder(%r) is not a valid order" % new_order)
+        return self._nbo(act)
+
+    def _nbo(self, act):
+        if self.fields is not None:
+            return MDtype(self.host, fields=[(n, d._nbo(act)) for n, d in self.fields])
+        if self.sub is not None:
+            return MDtype(self.host, sub=(self.sub[0]._nbo(act), self.sub[1]))
+        if self.order == "|" or act == "|":
+            return self
+        if act == "S":
+            new = {"<": ">", ">": "<", "=": ">" if self.host else "<"}[self.order]
+        else:
+            new = act
+        return MDtype(self.host, new, self.code)
+
+    def item(self, idx):
+        if self.fields is None:
+            raise _Raised("indexing a dtype without fields")
+        if isinstance(idx, bool):
+            raise _Unrec("dtype[bool]")
+        if isinstance(idx, int):
+            try:
+                return self.fields[idx][1]
+            except IndexError:
+                raise _Raised("dtype field index out of range")
+        if isinstance(idx, str):
+            for n, d in self.fields:
+                if n == idx:
+                    return d
+            raise _Raised("no field %r" % idx)
+        raise _Unrec("dtype[%r]" % (idx,))
+
+    # -- what the analysed code may read
+    def m_getattr(self, name):
+        plain = self.fields is None and self.sub is None
+        if name == "byteorder":
+            return self.order if plain else "|"
+        if name == "base":
+            return self.sub[0] if self.sub is not None else self
+        if name == "names":
+            return tuple(n for n, _ in self.fields) if self.fields is not None else None
+        if name == "fields":
+            if self.fields is None:
+                return None
+            off, out = 0, {}
+            for n, d in self.fields:
+                out[n] = (d, off)
+                off += d.nbytes()
+            return out
+        if name == "descr":
+            return self.descr()
+        if name == "str":
+            return self.typestr()
+        if name == "subdtype":
+            return (self.sub[0], tuple(self.sub[1])) if self.sub is not None else None
+        if name == "shape":
+            return tuple(self.sub[1]) if self.sub is not None else ()
+        if name == "itemsize":
+            return self.nbytes()
+        if name == "kind":
+            return self.code[0] if plain else "V"
+        if name == "isnative":
+            return all(_resolve(x.order, self.host) in (None, "L" if self.host else "B") for x in self.leaves())
+        if name == "newbyteorder":
+            return _Fn(self.newbyteorder, "dtype.newbyteorder")
+        raise _Unrec("dtype.%s is not modelled" % name)
+
+
+class MBuf:
+    """a data buffer: the byte order its multi-byte items were created in, and how many times it was swapped since"""
+
+    def __init__(self, origin, swaps=0):
+        self.origin = origin
+        self.swaps = swaps
+
+    def order(self):
+        return self.origin if self.swaps % 2 == 0 else _other(self.origin)
+
+
+class MArray:
+    def __init__(self, host, dtype, buf):
+        self.host = host
+        self.dtype = dtype
+        self.buf = buf
+        self.dtype_sets = 0
+
+    def __bool__(self):
+        raise _Unrec("truth value of an array")
+
+    def __eq__(self, other):
+        raise _Unrec("element-wise comparison of arrays")
+
+    __hash__ = object.__hash__
+
+    def __repr__(self):
+        return "array<%r, bytes %s>" % (self.dtype, self.buf.order())
+
+    def consistent(self):
+        """the declared order of the multi-byte items is the order of the bytes: the values are the original ones"""
+        o = self.dtype.orders()
+        return not o or o == {self.buf.order()}
+
+    def byteswap(self, inplace=False):
+        if not isinstance(inplace, (bool, int)):
+            raise _Unrec("byteswap(%r)" % (inplace,))
+        if inplace:
+            self.buf.swaps += 1
+            return self
+        return MArray(self.host, self.dtype, MBuf(self.buf.origin, self.buf.swaps + 1))
+
+    def copy(self, order="C"):
+        return MArray(self.host, self.dtype, MBuf(self.buf.origin, self.buf.swaps))
+
+    def view(self, *a, **k):
+        args = list(a) + [k[x] for x in ("dtype", "type") if x in k]
+        if set(k) - {"dtype", "type"}:
+            raise _Unrec("array.view(%s)" % sorted(k))
+        dt = self.dtype
+        for x in args:
+            if isinstance(x, MDtype):
+                if x.nbytes() != self.dtype.nbytes():
+                    raise _Unrec("view with another item size")
+                dt = x
+            elif isinstance(x, MType) and x.name == "ndarray":
+                pass
+            else:
+                raise _Unrec("array.view(%r)" % (x,))
+        return MArray(self.host, dt, self.buf)
+
+    def astype(self, dtype, **k):
+        if not isinstance(dtype, MDtype) or set(k) - {"copy"} or k.get("copy", True) is not True:
+            raise _Unrec("array.astype(%r, %s)" % (dtype, k))
+        if _shape_key(dtype) != _shape_key(self.dtype):
+            raise _Unrec("astype to another structure")
+        # a value-preserving conversion: the new buffer holds the values in the order the new dtype declares
+        if not self.consistent():
+            raise _Unrec("astype of re-labelled data")
+        o = dtype.orders()
+        if len(o) > 1:
+            raise _Unrec("astype to a mixed-order dtype")
+        return MArray(self.host, dtype, MBuf(next(iter(o)) if o else self.buf.origin, 0))
+
+    def item(self, idx):
+        if isinstance(idx, str):
+            d = self.dtype.item(idx)
+            if d.sub is not None:
+                d = d.sub[0]          # a field view dissolves the sub-array into extra dimensions
+            return MArray(self.host, d, self.buf)
+        raise _Unrec("array[%r]" % (idx,))
+
+    def m_getattr(self, name):
+        if name == "dtype":
+            return self.dtype
+        if name in ("byteswap", "copy", "view", "astype"):
+            return _Fn(getattr(self, name), "ndarray." + name)
+        raise _Unrec("ndarray.%s is not modelled" % name)
+
+    def m_setattr(self, name, value):
+        if name != "dtype" or not isinstance(value, MDtype):
+            raise _Unrec("assignment to ndarray.%s" % name)
+        if value.nbytes() != self.dtype.nbytes():
+            raise _Unrec("dtype assignment with another item size")
+        self.dtype = value
+        self.dtype_sets += 1
+
+
+def _shape_key(dt):
+    if dt.fields is not None:
+        return ("struct", tuple((n, _shape_key(d)) for n, d in dt.fields))
+    if dt.sub is not None:
+        return ("sub", _shape_key(dt.sub[0]), tuple(dt.sub[1]))
+    return ("plain", dt.code)
+
+
+def _parse_typestr(host, s):
+    if not isinstance(s, str) or not s:
+        raise _Unrec("dtype(%r)" % (s,))
+    order, code = (s[0], s[1:]) if s[0] in "<>=|" else ("=", s)
+    if len(code) < 2 or not code[1:].isdigit() or code[0] not in "fiucSUbV":
+        raise _Unrec("dtype(%r)" % (s,))
+    if code[0] in "SV" or int(code[1:]) == 1:
+        order = "|"
+    elif order == "|":
+        order = "="
+    elif _resolve(order, host) == ("L" if host else "B"):
+        order = "="               # numpy spells the host's own order '='
+    return MDtype(host, order, code)
+
+
+class MNumpy:
+    def __init__(self, host):
+        self.host = host
+        self.t_dtype = MType("dtype", self._dtype, lambda v: isinstance(v, MDtype))
+        self.t_ndarray = MType("ndarray", None, lambda v: isinstance(v, MArray))
+
+    def _dtype(self, x, *a, **k):
+        if a or k:
+            raise _Unrec("numpy.dtype with options")
+        if isinstance(x, MDtype):
+            return x
+        if isinstance(x, str):
+            return _parse_typestr(self.host, x)
+        if isinstance(x, list):
+            fields = []
+            for e in x:
+                if not isinstance(e, tuple) or len(e) not in (2, 3) or not isinstance(e[0], str):
+                    raise _Unrec("numpy.dtype(%r)" % (x,))
+                d = self._dtype(e[1])
+                if len(e) == 3:
+                    shp = e[2] if isinstance(e[2], tuple) else (e[2],)
+                    d = MDtype(self.host, sub=(d, shp))
+                fields.append((e[0], d))
+            return MDtype(self.host, fields=fields)
+        raise _Unrec("numpy.dtype(%r)" % (x,))
+
+    def _array(self, x, dtype=None, copy=True, subok=False, **k):
+        if not isinstance(x, MArray) or dtype is not None or k:
+            raise _Unrec("numpy.array(...) of this form")
+        if copy is True:
+            return x.copy()
+        if copy is False:
+            return x
+        raise _Unrec("numpy.array(copy=%r)" % (copy,))
+
+    def m_getattr(self, name):
+        if name == "little_endian":
+            return self.host
+        if name == "dtype":
+            return self.t_dtype
+        if name == "ndarray":
+            return self.t_ndarray
+        if name in ("str_", "bytes_", "string_", "unicode_"):
+            return MType(name)
+        if name == "array":
+            return _Fn(self._array, "numpy.array")
+        if name == "asarray":
+            return _Fn(lambda x, **k: self._array(x, copy=False, **k), "numpy.asarray")
+        raise _Unrec("numpy.%s is not modelled" % name)
+
+
+class MSys:
+    def __init__(self, host):
+        self.host = host
+
+    def m_getattr(self, name):
+        if name == "byteorder":
+            return "little" if self.host else "big"
+        raise _Unrec("sys.%s is not modelled" % name)
+
+
+def _native_only(v, depth=0):
+    if depth > 6:
+        return False
+    if v is None or isinstance(v, (bool, int, float, str, bytes)):
+        return True
+    if isinstance(v, (tuple, list, set, frozenset)):
+        return all(_native_only(x, depth + 1) for x in v)
+    if isinstance(v, dict):
+        return all(_native_only(a, depth + 1) and _native_only(b, depth + 1) for a, b in v.items())
+    return False
+
+
+class MCopy:
+    def m_getattr(self, name):
+        import copy as _c
+        if name in ("copy", "deepcopy"):
+            fn = getattr(_c, name)
+
+            def f(x):
+                if _native_only(x):
+                    return fn(x)
+                if isinstance(x, MDtype):
+                    return x
+                if isinstance(x, MArray):
+                    return x.copy()
+                raise _Unrec("copy.%s(%r)" % (name, x))
+            return _Fn(f, "copy." + name)
+        raise _Unrec("copy.%s is not modelled" % name)
+
+
+class MSelf:
+    """the receiver of a method: only its methods can be used"""
+
+    def __init__(self, interp, fi):
+        self.interp = interp
+        self.fi = fi
+
+    def m_getattr(self, name):
+        f = self.fi.module.funcs.get("%s.%s" % (self.fi.cls, name))
+        if f is None:
+            raise _Unrec("self.%s" % name)
+        return RFunc(self.interp, f, self)
+
+
+class RFunc:
+    """a function of the repository, evaluated on call"""
+
+    def __init__(self, interp, fi, selfobj=None):
+        self.interp = interp
+        self.fi = fi
+        self.selfobj = selfobj
+
+    def __call__(self, *a, **k):
+        return self.interp.call(self.fi, list(a), dict(k), self.selfobj)
+
+
+class RLambda:
+    """a lambda or a nested def: evaluated in (a copy of) the environment it was created in"""
+
+    def __init__(self, interp, node, env, fi):
+        self.interp, self.node, self.env, self.fi = interp, node, env, fi
+
+    def __call__(self, *a, **k):
+        env = dict(self.env)
+        it = self.interp
+        it.bind(self.node.args, list(a), dict(k), env, self.fi, getattr(self.node, "name", "<lambda>"))
+        if isinstance(self.node, ast.Lambda):
+            return it.ev(self.node.body, env, self.fi)
+        it.depth += 1
+        try:
+            if it.depth > 14:
+                raise _Unrec("call depth")
+            it.block(self.node.body, env, self.fi)
+        except _Return as r:
+            return r.value
+        finally:
+            it.depth -= 1
+        return None
+
+
+_NATIVE_METHODS = {
+    dict: {"items", "keys", "values", "get", "pop", "copy", "setdefault", "update"},
+    list: {"append", "extend", "insert", "pop", "index", "copy", "count", "reverse"},
+    tuple: {"index", "count"},
+    str: {"startswith", "endswith", "lstrip", "rstrip", "strip", "format", "join", "replace", "upper", "lower", "split", "find", "isdigit"},
+    set: {"add", "discard", "copy"},
+}
+_NATIVE_TYPES = (str, list, tuple, dict, set, frozenset, int, float, bool, bytes)
+_IMPORT_MODELS = {"numpy": "numpy", "copy": "copy", "sys": "sys"}
+
+
+def _truth(v):
+    if v is None or isinstance(v, (bool, int, float, str, bytes, tuple, list, dict, set, frozenset, range)):
+        return bool(v)
+    if isinstance(v, (MDtype, RFunc, RLambda, _Fn, MType)):
+        return True
+    raise _Unrec("truth value of %r" % (v,))
+
+
+def _isinstance(v, t):
+    if isinstance(t, tuple):
+        return any(_isinstance(v, x) for x in t)
+    if isinstance(t, MType):
+        return bool(t.check(v))
+    if isinstance(t, type) and t in _NATIVE_TYPES:
+        return isinstance(v, t)
+    raise _Unrec("isinstance(_, %r)" % (t,))
+
+
+class Interp:
+    """evaluates functions of the parsed repository on model values for one host byte order"""
+
+    def __init__(self, repo, host_little, budget=40000):
+        self.repo = repo
+        self.host = host_little
+        self.budget = budget
+        self.steps = 0
+        self.depth = 0
+        self.visited = set()
+        self.np = MNumpy(host_little)
+        self.models = {"numpy": self.np, "copy": MCopy(), "sys": MSys(host_little)}
+        self.builtins = {
+            "any": any, "all": all, "len": len, "range": range, "enumerate": enumerate, "zip": zip, "reversed": reversed,
+            "sorted": sorted, "min": min, "max": max, "sum": sum, "repr": repr, "abs": abs,
+            "map": lambda f, *xs: list(map(f, *xs)), "filter": lambda f, xs: [x for x in xs if _truth(f(x) if f is not None else x)],
+            "isinstance": _isinstance, "bool": _truth, "iter": iter, "next": next,
+        }
+        self.builtins = {k: _Fn(v, k) for k, v in self.builtins.items()}
+        for t in _NATIVE_TYPES:
+            if t is not bool:
+                self.builtins[t.__name__] = t
+        for n in ("TypeError", "ValueError", "RuntimeError", "KeyError", "IndexError", "Exception"):
+            self.builtins[n] = MType(n)
+
+    # -- entry ----------------------------------------------------------
+    def run(self, fi, args=(), kwargs=None, selfobj=None):
+        """('ok', value) | ('raise', text) | ('unrec', text)"""
+        self.steps = 0
+        self.depth = 0
+        try:
+            return ("ok", self.call(fi, list(args), dict(kwargs or {}), selfobj))
+        except _Raised as e:
+            return ("raise", str(e))
+        except _Unrec as e:
+            return ("unrec", str(e))
+        except RecursionError:
+            return ("unrec", "recursion")
+        except (_Return, _Break, _Continue):
+            return ("unrec", "stray control flow")
+        except Exception as e:     # an operation of the model host failed in a way the model does not describe
+            return ("unrec", "%s: %s" % (type(e).__name__, e))
+
+    def tick(self):
+        self.steps += 1
+        if self.steps > self.budget:
+            raise _Unrec("evaluation budget exhausted (unbounded loop?)")
+
+    # -- calls ----------------------------------------------------------
+    def bind(self, a, args, kwargs, env, fi, what):
+        pos = [x.arg for x in a.posonlyargs + a.args]
+        defaults = dict(zip(pos[len(pos) - len(a.defaults):], a.defaults))
+        for p, d in zip(a.kwonlyargs, a.kw_defaults):
+            if d is not None:
+                defaults[p.arg] = d
+        if len(args) > len(pos):
+            if a.vararg is None:
+                raise _Raised("%s() takes %d positional arguments, %d given" % (what, len(pos), len(args)))
+            env[a.vararg.arg] = tuple(args[len(pos):])
+            args = args[:len(pos)]
+        elif a.vararg is not None:
+            env[a.vararg.arg] = ()
+        for p, v in zip(pos, args):
+            env[p] = v
+        allowed = set(pos[len(a.posonlyargs):]) | {x.arg for x in a.kwonlyargs}
+        extra = {}
+        for k, v in kwargs.items():
+            if k in allowed:
+                if k in env and k in pos[:len(args)]:
+                    raise _Raised("%s() got multiple values for %s" % (what, k))
+                env[k] = v
+            elif a.kwarg is not None:
+                extra[k] = v
+            else:
+                raise _Raised("%s() got an unexpected keyword argument %r" % (what, k))
+        if a.kwarg is not None:
+            env[a.kwarg.arg] = extra
+        for p in pos + [x.arg for x in a.kwonlyargs]:
+            if p not in env:
+                if p in defaults:
+                    env[p] = self.ev(defaults[p], {}, fi)
+                else:
+                    raise _Raised("%s() missing argument %s" % (what, p))
+
+    def call(self, fi, args, kwargs, selfobj=None):
+        if fi.name == "isstring" and len(args) == 1 and not kwargs:
+            # trusted summary: the repository's isstring() is "is a (byte) string" (python/numpy version switch inside)
+            return isinstance(args[0], (str, bytes))
+        if isinstance(fi.node, ast.AsyncFunctionDef) or rules.is_generator(fi.node) or fi.node.decorator_list:
+            raise _Unrec("%s is a generator / decorated function" % fi.qualname)
+        self.visited.add(fi.qualname)
+        self.depth += 1
+        if self.depth > 14:
+            raise _Unrec("call depth")
+        try:
+            env = {}
+            if fi.cls is not None:
+                if selfobj is None:
+                    selfobj = MSelf(self, fi)
+                args = [selfobj] + list(args)
+            self.bind(fi.node.args, args, kwargs, env, fi, fi.name)
+            try:
+                self.block(fi.node.body, env, fi)
+            except _Return as r:
+                return r.value
+            return None
+        finally:
+            self.depth -= 1
+
+    # -- names ----------------------------------------------------------
+    def lookup(self, name, env, fi):
+        if name in env:
+            return env[name]
+        mod = fi.module
+        if name in mod.funcs:
+            return RFunc(self, mod.funcs[name])
+        if name in mod.imports:
+            tgt = mod.imports[name]
+            if tgt in self.models:
+                return self.models[tgt]
+            full = self.repo.resolve_name(mod, name)
+            if full in self.repo.funcs:
+                return RFunc(self, self.repo.funcs[full])
+            raise _Unrec("imported name %s (%s) is not modelled" % (name, tgt))
+        if name in mod.consts:
+            self.depth += 1
+            try:
+                if self.depth > 14:
+                    raise _Unrec("constant depth")
+                return self.ev(mod.consts[name], {}, fi)
+            finally:
+                self.depth -= 1
+        if name in self.builtins:
+            return self.builtins[name]
+        for sm in mod.star:
+            m2 = self.repo.modules.get(sm)
+            if m2 is not None and name in m2.funcs:
+                return RFunc(self, m2.funcs[name])
+        raise _Unrec("name %s is not defined in the model" % name)
+
+    # -- statements -----------------------------------------------------
+    def block(self, stmts, env, fi):
+        for st in stmts:
+            self.stmt(st, env, fi)
+
+    def stmt(self, st, env, fi):
+        self.tick()
+        if isinstance(st, ast.Expr):
+            if not isinstance(st.value, ast.Constant):
+                self.ev(st.value, env, fi)
+        elif isinstance(st, ast.Assign):
+            v = self.ev(st.value, env, fi)
+            for t in st.targets:
+                self.assign(t, v, env, fi)
+        elif isinstance(st, ast.AnnAssign):
+            if st.value is not None:
+                self.assign(st.target, self.ev(st.value, env, fi), env, fi)
+        elif isinstance(st, ast.AugAssign):
+            import operator as op
+            ops = {ast.Add: op.iadd, ast.Sub: op.isub, ast.Mult: op.imul, ast.BitOr: op.ior, ast.BitAnd: op.iand, ast.BitXor: op.ixor}
+            f = ops.get(type(st.op))
+            if f is None:
+                raise _Unrec("augmented assignment %s" % norm(st))
+            load = ast.fix_missing_locations(ast.copy_location(_as_load(st.target), st.target))
+            cur = self.ev(load, env, fi)
+            val = self.ev(st.value, env, fi)
+            if not (_plain(cur) and _plain(val)):
+                raise _Unrec("augmented assignment on model objects")
+            self.assign(st.target, f(cur, val), env, fi)
+        elif isinstance(st, ast.If):
+            self.block(st.body if _truth(self.ev(st.test, env, fi)) else st.orelse, env, fi)
+        elif isinstance(st, ast.For):
+            it = self.iterable(self.ev(st.iter, env, fi))
+            broke = False
+            for x in it:
+                self.tick()
+                self.assign(st.target, x, env, fi)
+                try:
+                    self.block(st.body, env, fi)
+                except _Break:
+                    broke = True
+                    break
+                except _Continue:
+                    continue
+            if not broke:
+                self.block(st.orelse, env, fi)
+        elif isinstance(st, ast.While):
+            broke = False
+            while _truth(self.ev(st.test, env, fi)):
+                self.tick()
+                try:
+                    self.block(st.body, env, fi)
+                except _Break:
+                    broke = True
+                    break
+                except _Continue:
+                    continue
+            if not broke:
+                self.block(st.orelse, env, fi)
+        elif isinstance(st, ast.Return):
+            raise _Return(self.ev(st.value, env, fi) if st.value is not None else None)
+        elif isinstance(st, ast.Break):
+            raise _Break()
+        elif isinstance(st, ast.Continue):
+            raise _Continue()
+        elif isinstance(st, ast.Pass):
+            pass
+        elif isinstance(st, ast.Raise):
+            raise _Raised("raise %s" % (norm(st.exc)[:80] if st.exc is not None else ""))
+        elif isinstance(st, ast.Assert):
+            if not _truth(self.ev(st.test, env, fi)):
+                raise _Raised("assert %s" % norm(st.test))
+        elif isinstance(st, ast.Delete):
+            for t in st.targets:
+                if isinstance(t, ast.Subscript):
+                    c = self.ev(t.value, env, fi)
+                    if not isinstance(c, (list, dict)):
+                        raise _Unrec("del on %r" % (c,))
+                    try:
+                        del c[self.index(t.slice, env, fi)]
+                    except (KeyError, IndexError) as e:
+                        raise _Raised("%s: %s" % (type(e).__name__, e))
+                elif isinstance(t, ast.Name):
+                    env.pop(t.id, None)
+                else:
+                    raise _Unrec("del %s" % norm(t))
+        elif isinstance(st, ast.FunctionDef):
+            if st.decorator_list or rules.is_generator(st):
+                raise _Unrec("nested generator / decorated function %s" % st.name)
+            env[st.name] = RLambda(self, st, env, fi)
+        elif isinstance(st, (ast.Import, ast.ImportFrom)):
+            for al in st.names:
+                top = al.name.split(".")[0] if isinstance(st, ast.Import) else None
+                if isinstance(st, ast.Import) and top in self.models:
+                    env[al.asname or top] = self.models[top]
+                else:
+                    raise _Unrec("local import %s" % norm(st))
+        else:
+            raise _Unrec("statement %s" % type(st).__name__)
+
+    def assign(self, t, v, env, fi):
+        if isinstance(t, ast.Name):
+            env[t.id] = v
+        elif isinstance(t, (ast.Tuple, ast.List)):
+            vals = list(self.iterable(v))
+            if any(isinstance(e, ast.Starred) for e in t.elts) or len(vals) != len(t.elts):
+                raise _Unrec("unpacking %s" % norm(t))
+            for e, x in zip(t.elts, vals):
+                self.assign(e, x, env, fi)
+        elif isinstance(t, ast.Attribute):
+            o = self.ev(t.value, env, fi)
+            if not hasattr(o, "m_setattr"):
+                raise _Unrec("assignment to attribute %s" % norm(t))
+            o.m_setattr(t.attr, v)
+        elif isinstance(t, ast.Subscript):
+            c = self.ev(t.value, env, fi)
+            if not isinstance(c, (list, dict)):
+                raise _Unrec("item assignment on %r" % (c,))
+            try:
+                c[self.index(t.slice, env, fi)] = v
+            except (IndexError, TypeError) as e:
+                raise _Raised("%s: %s" % (type(e).__name__, e))
+        else:
+            raise _Unrec("assignment target %s" % norm(t))
+
+    def iterable(self, v):
+        if isinstance(v, (tuple, list, str, dict, set, frozenset, range)):
+            return list(v)
+        if type(v).__name__ in ("enumerate", "zip", "reversed", "dict_items", "dict_keys", "dict_values", "list_iterator",
+                                "tuple_iterator", "list_reverseiterator", "map", "filter"):
+            return list(v)
+        if v is None or isinstance(v, (bool, int, float)):
+            raise _Raised("%r is not iterable" % (v,))
+        if isinstance(v, MDtype):
+            raise _Raised("a dtype is not iterable")
+        raise _Unrec("iteration over %r" % (v,))
+
+    # -- expressions ----------------------------------------------------
+    def index(self, s, env, fi):
+        if isinstance(s, ast.Slice):
+            return slice(*(None if x is None else self.ev(x, env, fi) for x in (s.lower, s.upper, s.step)))
+        return self.ev(s, env, fi)
+
+    def comp(self, gens, env, fi, leaf, out):
+        if not gens:
+            out.append(leaf(env))
+            return
+        g = gens[0]
+        if g.is_async:
+            raise _Unrec("async comprehension")
+        for x in self.iterable(self.ev(g.iter, env, fi)):
+            self.tick()
+            self.assign(g.target, x, env, fi)
+            if all(_truth(self.ev(c, env, fi)) for c in g.ifs):
+                self.comp(gens[1:], env, fi, leaf, out)
+
+    def ev(self, e, env, fi):
+        self.tick()
+        if isinstance(e, ast.Constant):
+            return e.value
+        if isinstance(e, ast.Name):
+            return self.lookup(e.id, env, fi)
+        if isinstance(e, ast.Attribute):
+            o = self.ev(e.value, env, fi)
+            if hasattr(o, "m_getattr"):
+                return o.m_getattr(e.attr)
+            for t, names in _NATIVE_METHODS.items():
+                if isinstance(o, t) and not isinstance(o, bool) and e.attr in names:
+                    return _Fn(getattr(o, e.attr), "%s.%s" % (t.__name__, e.attr))
+            if o is None:
+                raise _Raised("None has no attribute %s" % e.attr)
+            raise _Unrec("attribute %s of %r" % (e.attr, o))
+        if isinstance(e, ast.Subscript):
+            o = self.ev(e.value, env, fi)
+            i = self.index(e.slice, env, fi)
+            if isinstance(o, (MDtype, MArray)):
+                return o.item(i)
+            if isinstance(o, (tuple, list, str, dict)):
+                if not _plain(i) and not isinstance(i, slice):
+                    raise _Unrec("index %r" % (i,))
+                try:
+                    return o[i]
+                except (IndexError, KeyError, TypeError) as ex:
+                    raise _Raised("%s: %s" % (type(ex).__name__, ex))
+            if o is None:
+                raise _Raised("None is not subscriptable")
+            raise _Unrec("subscript of %r" % (o,))
+        if isinstance(e, ast.Call):
+            return self.callexpr(e, env, fi)
+        if isinstance(e, ast.BoolOp):
+            v = None
+            for x in e.values:
+                v = self.ev(x, env, fi)
+                t = _truth(v)
+                if isinstance(e.op, ast.And) and not t:
+                    return v
+                if isinstance(e.op, ast.Or) and t:
+                    return v
+            return v
+        if isinstance(e, ast.UnaryOp):
+            v = self.ev(e.operand, env, fi)
+            if isinstance(e.op, ast.Not):
+                return not _truth(v)
+            if isinstance(v, (int, float)) and not isinstance(v, bool):
+                return -v if isinstance(e.op, ast.USub) else +v if isinstance(e.op, ast.UAdd) else ~v
+            raise _Unrec("unary %s" % norm(e))
+        if isinstance(e, ast.Compare):
+            left = self.ev(e.left, env, fi)
+            for o, r in zip(e.ops, e.comparators):
+                right = self.ev(r, env, fi)
+                if not self.compare(o, left, right):
+                    return False
+                left = right
+            return True
+        if isinstance(e, ast.IfExp):
+            return self.ev(e.body if _truth(self.ev(e.test, env, fi)) else e.orelse, env, fi)
+        if isinstance(e, (ast.Tuple, ast.List, ast.Set)):
+            vals = []
+            for x in e.elts:
+                if isinstance(x, ast.Starred):
+                    vals.extend(self.iterable(self.ev(x.value, env, fi)))
+                else:
+                    vals.append(self.ev(x, env, fi))
+            return tuple(vals) if isinstance(e, ast.Tuple) else vals if isinstance(e, ast.List) else set(vals)
+        if isinstance(e, ast.Dict):
+            d = {}
+            for k, v in zip(e.keys, e.values):
+                if k is None:
+                    raise _Unrec("dict unpacking")
+                d[self.ev(k, env, fi)] = self.ev(v, env, fi)
+            return d
+        if isinstance(e, (ast.ListComp, ast.GeneratorExp, ast.SetComp)):
+            out = []
+            self.comp(e.generators, dict(env), fi, lambda en: self.ev(e.elt, en, fi), out)
+            return set(out) if isinstance(e, ast.SetComp) else out
+        if isinstance(e, ast.DictComp):
+            out = []
+            self.comp(e.generators, dict(env), fi, lambda en: (self.ev(e.key, en, fi), self.ev(e.value, en, fi)), out)
+            return dict(out)
+        if isinstance(e, ast.BinOp):
+            import operator as op
+            a, b = self.ev(e.left, env, fi), self.ev(e.right, env, fi)
+            ops = {ast.Add: op.add, ast.Sub: op.sub, ast.Mult: op.mul, ast.Mod: op.mod, ast.FloorDiv: op.floordiv, ast.Div: op.truediv,
+                   ast.BitAnd: op.and_, ast.BitOr: op.or_, ast.BitXor: op.xor}
+            f = ops.get(type(e.op))
+            if f is None or not (_plain(a) and _plain(b)):
+                raise _Unrec("operator in %s" % norm(e)[:60])
+            try:
+                return f(a, b)
+            except (TypeError, ZeroDivisionError, ValueError) as ex:
+                raise _Raised("%s: %s" % (type(ex).__name__, ex))
+        if isinstance(e, ast.JoinedStr):
+            out = []
+            for p in e.values:
+                if isinstance(p, ast.Constant):
+                    out.append(str(p.value))
+                else:
+                    v = self.ev(p.value, env, fi)
+                    if not _plain(v):
+                        raise _Unrec("formatting a model object")
+                    spec = self.ev(p.format_spec, env, fi) if p.format_spec is not None else ""
+                    v = {-1: v, 115: str(v), 114: repr(v), 97: ascii(v)}[p.conversion]
+                    out.append(format(v, spec))
+            return "".join(out)
+        if isinstance(e, ast.Lambda):
+            return RLambda(self, e, env, fi)
+        raise _Unrec("expression %s" % type(e).__name__)
+
+    def compare(self, o, a, b):
+        if isinstance(o, (ast.Is, ast.IsNot)):
+            if not any(x is None or isinstance(x, bool) for x in (a, b)) and not (isinstance(a, (MDtype, MArray, MBuf)) or isinstance(b, (MDtype, MArray, MBuf))):
+                raise _Unrec("identity comparison of values")
+            if isinstance(a, MDtype) and isinstance(b, MDtype):
+                raise _Unrec("identity comparison of dtypes")
+            r = a is b
+            return r if isinstance(o, ast.Is) else not r
+        if isinstance(a, MArray) or isinstance(b, MArray):
+            raise _Unrec("comparison of arrays")
+        if isinstance(o, ast.Eq):
+            return bool(a == b)
+        if isinstance(o, ast.NotEq):
+            return bool(a != b)
+        if isinstance(o, (ast.In, ast.NotIn)):
+            if not isinstance(b, (tuple, list, str, dict, set, frozenset)):
+                raise _Unrec("membership in %r" % (b,))
+            try:
+                r = a in b
+            except TypeError as ex:
+                raise _Raised("TypeError: %s" % ex)
+            return r if isinstance(o, ast.In) else not r
+        if not (_plain(a) and _plain(b)):
+            raise _Unrec("ordering comparison of model objects")
+        import operator as op
+        f = {ast.Lt: op.lt, ast.LtE: op.le, ast.Gt: op.gt, ast.GtE: op.ge}[type(o)]
+        try:
+            return bool(f(a, b))
+        except TypeError as ex:
+            raise _Raised("TypeError: %s" % ex)
+
+    def callexpr(self, e, env, fi):
+        f = self.ev(e.func, env, fi)
+        args, kwargs = [], {}
+        for a in e.args:
+            if isinstance(a, ast.Starred):
+                args.extend(self.iterable(self.ev(a.value, env, fi)))
+            else:
+                args.append(self.ev(a, env, fi))
+        for k in e.keywords:
+            if k.arg is None:
+                d = self.ev(k.value, env, fi)
+                if not isinstance(d, dict):
+                    raise _Unrec("** of %r" % (d,))
+                kwargs.update(d)
+            else:
+                kwargs[k.arg] = self.ev(k.value, env, fi)
+        if isinstance(f, (RFunc, RLambda, MType, _Fn)):
+            try:
+                return f(*args, **kwargs)
+            except (_Unrec, _Raised, _Return, _Break, _Continue, RecursionError):
+                raise
+            except (IndexError, KeyError, StopIteration) as ex:
+                if isinstance(f, _Fn) and f.name.split(".")[0] in ("list", "dict", "tuple", "str", "next"):
+                    raise _Raised("%s: %s" % (type(ex).__name__, ex))
+                raise _Unrec("%s in %s" % (type(ex).__name__, norm(e)[:60]))
+            except Exception as ex:
+                raise _Unrec("%s in %s: %s" % (type(ex).__name__, norm(e)[:60], ex))
+        if isinstance(f, type) and f in _NATIVE_TYPES:
+            if any(isinstance(x, (MArray,)) for x in args) or kwargs and f is not dict:
+                raise _Unrec("%s(...) of model objects" % f.__name__)
+            if f in (list, tuple, set, frozenset) and args:
+                args = [self.iterable(args[0])] + args[1:]
+            if f is str and args and not _plain(args[0]):
+                raise _Unrec("str() of a model object")
+            try:
+                return f(*args, **kwargs)
+            except (TypeError, ValueError) as ex:
+                raise _Raised("%s: %s" % (type(ex).__name__, ex))
+        raise _Unrec("call of %r" % (f,))
+
+
+def _plain(v):
+    return v is None or isinstance(v, (bool, int, float, str, bytes, tuple, list, dict, set, frozenset, slice))
+
+
+def _as_load(t):
+    import copy as _c
+    t = _c.deepcopy(t)
+    t.ctx = ast.Load()
+    return t
+
+
+# ---------------------------------------------------------------------------
+# the finite input domain
+# ---------------------------------------------------------------------------
+HOSTS = (True, False)
+ORDERS = ("<", ">", "=")
+# field layouts: N string field, B one-byte integer (neither has a byte order), X multi-byte scalar, V / W 1-d / 2-d sub-array of
+# multi-byte items.  All multi-byte fields of one array share one order (property quantifier).
+LAYOUTS_PLAIN = ("X", "XX")
+LAYOUTS_NEUTRAL = ("NX", "XN", "BX", "NXN", "NNX", "XNB", "BNXX", "NV", "WB", "NVN")
+LAYOUTS_SUB = ("V", "W", "VW", "XV", "VX")
+_CODES = {"N": ("|", "S4"), "B": ("|", "u1")}
+
+
+def _hostname(h):
+    return "little" if h else "big"
+
+
+def mk_dtype(host, layout, order):
+    fields = []
+    for i, c in enumerate(layout):
+        if c in _CODES:
+            d = MDtype(host, *_CODES[c])
+        elif c == "X":
+            d = MDtype(host, order, "f8" if i % 2 == 0 else "i4")
+        elif c == "V":
+            d = MDtype(host, sub=(MDtype(host, order, "f8"), (3,)))
+        else:
+            d = MDtype(host, sub=(MDtype(host, order, "i2"), (2, 2)))
+        fields.append(("f%d" % i, d))
+    return MDtype(host, fields=fields)
+
+
+def mk_plain(host, order):
+    return MDtype(host, order, "f8") if order != "|" else MDtype(host, "|", "S4")
+
+
+def mk_array(host, dtype):
+    o = dtype.orders()
+    return MArray(host, dtype, MBuf(next(iter(o)) if o else "L"))
+
+
+class _Agg:
+    """one rule instance decided over many model inputs: violated by the first input on which the evaluation contradicts it,
+    not recognised when the evaluation left the model on some input and no input contradicts it"""
+
+    def __init__(self):
+        self.n = 0
+        self.bad = []
+        self.unrec = []
+
+    def add(self, ok, what):
+        self.n += 1
+        if ok is None:
+            self.unrec.append(what)
+        elif not ok:
+            self.bad.append(what)
+
+    def verdict(self):
+        if self.bad:
+            return False
+        if self.unrec or not self.n:
+            return None
+        return True
+
+    def tail(self):
+        if self.bad:
+            return " -- contradicted for " + "; ".join(self.bad[:3]) + (" (+%d more)" % (len(self.bad) - 3) if len(self.bad) > 3 else "")
+        if self.unrec:
+            return " -- the model evaluation could not follow the code: " + self.unrec[0]
+        return " (%d model inputs)" % self.n
+
+
+def _emit(chk, rule, key, agg, where, msg):
+    chk.ob(rule, key, agg.verdict(), where, msg + agg.tail())
+
+
+_interps = {}
+
+
+def _interp(repo, host):
+    k = (id(repo), host)
+    if k not in _interps:
+        _interps[k] = Interp(repo, host)
+    return _interps[k]
+
+
+def _note_units(chk, repo):
+    for h in HOSTS:
+        for q in sorted(_interp(repo, h).visited):
+            chk.analysed_unit(q)
+
+
+def _conv_case(repo, fi, host, dtype, inplace, keep, pass_flags=True):
+    """evaluate converter fi on a fresh model array; -> (status, array, result, text)"""
+    a = mk_array(host, dtype)
+    kw = {"inplace": inplace, "keep_dtype": keep} if pass_flags else {}
+    st, r = _interp(repo, host).run(fi, [a], kw)
+    return st, a, r
+
+
 def r16_2(chk, repo):
+    """byteswap(array, inplace, keep_dtype): one swap of the bytes, in the caller's buffer exactly when inplace; the dtype of the
+    object holding the swapped bytes is the input dtype with every field's order flipped exactly when keep_dtype is off"""
     fi = repo.func(NU + "byteswap")
-    cfg = cfg_of(fi)
-    view = cfg.view()
-    flips = [n for n in cfg.nodes if n.kind == "stmt" and isinstance(n.ast, ast.Assign) and isinstance(n.ast.targets[0], ast.Attribute)
-             and n.ast.targets[0].attr == "dtype"]
-    chk.ob("R16.2", "byteswap::dtype-flip-present", len(flips) == 1, fi.where(), "exactly one dtype flip statement")
-    for n in flips:
-        ts = rules.controlling_tests(view, n)
-        ok = ts in ([("not keep_dtype", "T")], [("keep_dtype", "F")])
-        chk.ob("R16.2", "byteswap::flip-iff-not-keep_dtype", ok, fi.where(n.ast), "the dtype flip is controlled by exactly `not keep_dtype` (found %s)" % ts)
-        v = n.ast.value
-        ok = isinstance(v, ast.Call) and call_name(v) == "newbyteorder" and not v.args and norm(v.func.value) == norm(n.ast.targets[0])
-        chk.ob("R16.2", "byteswap::flip-is-newbyteorder-of-own-dtype", ok, fi.where(n.ast),
-               "the new dtype is <result>.dtype.newbyteorder() (swap of every field's order): %s" % norm(n.ast))
-    swaps = [x for x in walk_no_nested(fi.node) if isinstance(x, ast.Call) and call_name(x) == "byteswap" and isinstance(x.func, ast.Attribute)]
-    ok = len(swaps) == 1 and norm(swaps[0].func.value) == "array" and swaps[0].args and norm(swaps[0].args[0]) == "inplace"
-    chk.ob("R16.2", "byteswap::single-swap-with-inplace-flag", ok, fi.where(), "exactly one array.byteswap(inplace) call")
-    # the flipped object is the swap result
-    if flips and swaps:
-        tgt = norm(flips[0].ast.targets[0].value)
-        src = [x for x in walk_no_nested(fi.node) if isinstance(x, ast.Assign) and x.value is swaps[0]]
-        chk.ob("R16.2", "byteswap::flip-applies-to-swap-result", bool(src) and norm(src[0].targets[0]) == tgt, fi.where(),
-               "the dtype flip is applied to the object returned by the swap")
+    keys = ["dtype-flip-present", "flip-iff-not-keep_dtype", "flip-is-newbyteorder-of-own-dtype", "single-swap-with-inplace-flag",
+            "flip-applies-to-swap-result"]
+    agg = {k: _Agg() for k in keys}
+    for host in HOSTS:
+        dts = [mk_plain(host, o) for o in ORDERS] + [mk_dtype(host, lay, o) for o in ORDERS for lay in ("X", "NX", "BXN", "NV", "XW")]
+        for d0 in dts:
+            for inplace in (False, True):
+                for keep in (False, True):
+                    what = "byteswap(%r, inplace=%s, keep_dtype=%s) on a %s-endian host" % (d0, inplace, keep, _hostname(host))
+                    st, a, r = _conv_case(repo, fi, host, d0, inplace, keep)
+                    if st == "unrec":
+                        for k in keys:
+                            agg[k].add(None, "%s: %s" % (what, r))
+                        continue
+                    if st == "raise" or not isinstance(r, MArray):
+                        for k in keys:
+                            agg[k].add(False, "%s: %s" % (what, "raises " + r if st == "raise" else "returns %r" % (r,)))
+                        continue
+                    flipped = d0.newbyteorder("S")
+                    if not keep:
+                        agg["dtype-flip-present"].add(r.dtype != d0, what + ": the result still declares %r" % (r.dtype,))
+                    agg["flip-iff-not-keep_dtype"].add((r.dtype == d0) == keep, what + ": result dtype %r" % (r.dtype,))
+                    if not keep:
+                        agg["flip-is-newbyteorder-of-own-dtype"].add(r.dtype == flipped, what + ": result dtype %r, wanted %r" % (r.dtype, flipped))
+                    ok = r.buf.swaps == 1 and (r.buf is a.buf) == inplace and a.buf.swaps == (1 if inplace else 0)
+                    agg["single-swap-with-inplace-flag"].add(ok, what + ": result bytes swapped %d time(s), caller's buffer %d time(s), result %s the caller's buffer"
+                                                             % (r.buf.swaps, a.buf.swaps, "shares" if r.buf is a.buf else "does not share"))
+                    if not keep:
+                        ok = r.consistent() and (not inplace or a.consistent())
+                        agg["flip-applies-to-swap-result"].add(ok, what + ": %s" % ("the result" if not r.consistent() else "the caller's array")
+                                                               + " declares an order that is not the order of its bytes")
+                    else:
+                        agg["flip-applies-to-swap-result"].add(a.dtype == d0, what + ": the caller's dtype was changed")
+    w = fi.where()
+    _emit(chk, "R16.2", "byteswap::dtype-flip-present", agg["dtype-flip-present"], w, "with keep_dtype off the result declares another order than the input")
+    _emit(chk, "R16.2", "byteswap::flip-iff-not-keep_dtype", agg["flip-iff-not-keep_dtype"], w, "the dtype is flipped exactly when keep_dtype is off")
+    _emit(chk, "R16.2", "byteswap::flip-is-newbyteorder-of-own-dtype", agg["flip-is-newbyteorder-of-own-dtype"], w,
+          "the new dtype is the input dtype with the order of every field swapped (names, types, shapes kept)")
+    _emit(chk, "R16.2", "byteswap::single-swap-with-inplace-flag", agg["single-swap-with-inplace-flag"], w,
+          "the bytes are swapped exactly once, in the caller's buffer exactly when inplace is on")
+    _emit(chk, "R16.2", "byteswap::flip-applies-to-swap-result", agg["flip-applies-to-swap-result"], w,
+          "the dtype flip is applied to the object(s) holding the swapped bytes (the returned array, and the caller's array when in place)")
+    _note_units(chk, repo)
 
 
+TARGET = {"to_big_endian": "B", "to_little_endian": "L"}
 OPPOSITE = {"to_big_endian": "is_little_endian", "to_little_endian": "is_big_endian"}
 
 
-def r16_3(chk, repo):
-    for name in ("to_big_endian", "to_little_endian", "to_native"):
-        fi = repo.func(NU + name)
-        loops = [x for x in walk_no_nested(fi.node) if isinstance(x, ast.For) and "dtype.names" in norm(x.iter)]
-        chk.ob("R16.3", "%s::field-loop-found" % name, len(loops) == 1, fi.where(), "loop over the fields of a structured array")
-        for lp in loops:
-            for st in ast.walk(lp):
-                if isinstance(st, ast.If):
-                    t = st.test
-                    neg = isinstance(t, ast.UnaryOp) and isinstance(t.op, ast.Not)
-                    inner = t.operand if neg else t
-                    pred = call_name(inner) if isinstance(inner, ast.Call) else None
-                    sets = [norm(b) for b in st.body if isinstance(b, ast.Assign)]
-                    chk.ob("R16.3", "%s::field-decision-is-positive" % name, (not neg) and pred in ("is_little_endian", "is_big_endian"),
-                           fi.where(st), "inside the field loop the decision `%s` must rest on a positive predicate result: the predicates are "
-                           "two-valued over a three-valued domain (big, little, neither), so `not is_X` also holds for string and one-byte fields"
-                           % norm(t))
-                    if name in OPPOSITE and not neg:
-                        chk.ob("R16.3", "%s::field-decision-uses-opposite-order" % name, pred == OPPOSITE[name] and any("doswap = True" == s for s in sets),
-                               fi.where(st), "a swap is needed when some field is declared in the opposite order (%s)" % OPPOSITE[name])
-                    if name == "to_native" and not neg:
-                        chk.ob("R16.3", "to_native::field-decision-detects-little", pred == "is_little_endian" and any("data_little = True" == s for s in sets),
-                               fi.where(st), "to_native detects little-endian data by a positive is_little_endian result")
-                    # argument is the field of this iteration
-                    if isinstance(inner, ast.Call) and inner.args:
-                        chk.ob("R16.3", "%s::field-decision-argument" % name, norm(inner.args[0]) == "array[%s]" % norm(lp.target), fi.where(st),
-                               "the predicate is applied to the field of the current iteration")
-
-
-def _const_eval_fn(fi, flags):
-    """value of the returned boolean expression of a predicate function under literal flags; locals assigned constants are propagated"""
-    cfg = cfg_of(fi)
-    v = cfg.specialise(flags=flags)
-    IN, _ = v.reaching_defs()
+def _decision_cases(chk, repo, fi, target_of, run_one, layouts, orders=ORDERS):
+    """-> list of (layout, host, order, need_swap, ok / None, text)"""
     out = []
-    for n in v.nodes():
-        if n.kind == "return" and n.ast.value is not None:
-            fl = dict(flags)
-            for name in {x.id for x in ast.walk(n.ast.value) if isinstance(x, ast.Name)}:
-                defs = IN[n.id].get(name, set())
-                vals = set()
-                for d in defs:
-                    dn = cfg.node(d)
-                    if isinstance(dn.ast, ast.Assign) and isinstance(dn.ast.value, ast.Constant):
-                        vals.add(dn.ast.value.value)
-                    else:
-                        vals.add("?")
-                if len(vals) == 1 and "?" not in vals:
-                    fl[name] = next(iter(vals))
-            out.append(eval_test(n.ast.value, fl))
+    for host in HOSTS:
+        target = target_of(host)
+        for order in orders:
+            for lay in layouts:
+                d0 = mk_dtype(host, lay, order) if lay != "plain" else mk_plain(host, order)
+                need = _resolve(order, host) != target
+                ok, text = run_one(host, d0, target)
+                out.append((lay, host, order, need, ok, text))
     return out
 
 
+def _bytes_in_target(repo, fi, combos, pass_flags=True):
+    """run_one for a converter: after the call the bytes of the result are in the target order, whatever the option flags"""
+    def run_one(host, d0, target):
+        for inplace, keep in combos:
+            st, a, r = _conv_case(repo, fi, host, d0, inplace, keep, pass_flags)
+            res = r if pass_flags else a
+            what = "%s(%r%s) on a %s-endian host" % (fi.name, d0, ", inplace=%s, keep_dtype=%s" % (inplace, keep) if pass_flags else "", _hostname(host))
+            if st == "unrec":
+                return None, "%s: %s" % (what, r)
+            if st == "raise":
+                return False, "%s raises %s" % (what, r)
+            if not isinstance(res, MArray):
+                return False, "%s returns %r" % (what, res)
+            if res.buf.order() != target:
+                return False, "%s leaves the data %s-endian" % (what, "big" if res.buf.order() == "B" else "little")
+        return True, ""
+    return run_one
+
+
+COMBOS = ((False, False), (True, True), (True, False), (False, True))
+
+
+def r16_3(chk, repo):
+    """the swap decision of the three converters on structured arrays, decided by evaluation over the model: after the call the
+    data are in the requested order for every field layout, declared-order spelling and host"""
+    for name in ("to_big_endian", "to_little_endian", "to_native"):
+        fi = repo.func(NU + name)
+        target_of = (lambda host, n=name: TARGET[n]) if name in TARGET else (lambda host: "L" if host else "B")
+        run_one = _bytes_in_target(repo, fi, COMBOS)
+        w = fi.where()
+        a_found, a_pos, a_arg, a_opp, a_plain = _Agg(), _Agg(), _Agg(), _Agg(), _Agg()
+        for lay, host, order, need, ok, text in _decision_cases(chk, repo, fi, target_of, run_one, LAYOUTS_NEUTRAL):
+            (a_found if need else a_pos).add(ok, text)
+        for lay, host, order, need, ok, text in _decision_cases(chk, repo, fi, target_of, run_one, LAYOUTS_SUB):
+            a_arg.add(ok, text)
+        for lay, host, order, need, ok, text in _decision_cases(chk, repo, fi, target_of, run_one, LAYOUTS_PLAIN):
+            a_opp.add(ok, text)
+        for lay, host, order, need, ok, text in _decision_cases(chk, repo, fi, target_of, run_one, ("plain",)):
+            a_plain.add(ok, text)
+        _emit(chk, "R16.3", "%s::field-loop-found" % name, a_found, w,
+              "every field of a structured array is considered: data in the other order are swapped wherever the first field with a byte order sits")
+        _emit(chk, "R16.3", "%s::field-decision-is-positive" % name, a_pos, w,
+              "the decision rests on a positive predicate result: string and one-byte fields are neither order (the predicates are two-valued "
+              "over a three-valued domain), so data already in the requested order are not swapped because of them")
+        _emit(chk, "R16.3", "%s::field-decision-argument" % name, a_arg, w,
+              "the order examined is that of the field itself, for sub-array fields the order of their items")
+        if name in OPPOSITE:
+            _emit(chk, "R16.3", "%s::field-decision-uses-opposite-order" % name, a_opp, w,
+                  "a swap happens exactly when the fields are declared in the opposite order (%s)" % OPPOSITE[name])
+        else:
+            _emit(chk, "R16.3", "to_native::field-decision-detects-little", a_opp, w,
+                  "to_native swaps exactly when the declared order of the fields is not the host's")
+        _emit(chk, "R16.3", "%s::plain-array-decision" % name, a_plain, w, "a plain array is swapped exactly when its declared order is not the requested one")
+    _note_units(chk, repo)
+
+
+def _forwarding_by_model(chk, repo, name):
+    """R16.1e when the call of byteswap is not in the converter's own body: the options arrive at the swap"""
+    fi = repo.func(NU + name)
+    agg = _Agg()
+    for host in HOSTS:
+        target = TARGET.get(name, "L" if host else "B")
+        for order in ORDERS:
+            if _resolve(order, host) == target:
+                continue
+            for inplace, keep in COMBOS:
+                d0 = mk_plain(host, order)
+                st, a, r = _conv_case(repo, fi, host, d0, inplace, keep)
+                what = "%s(%r, inplace=%s, keep_dtype=%s) on a %s-endian host" % (name, d0, inplace, keep, _hostname(host))
+                if st == "unrec":
+                    agg.add(None, "%s: %s" % (what, r))
+                elif st == "raise" or not isinstance(r, MArray):
+                    agg.add(False, what + (" raises " + r if st == "raise" else " returns %r" % (r,)))
+                else:
+                    agg.add((r.buf is a.buf) == inplace and (r.dtype == d0) == keep, what + ": result dtype %r, %s the caller's buffer"
+                            % (r.dtype, "in" if r.buf is a.buf else "not in"))
+    _emit(chk, "R16.1e", "%s::forwards-options" % name, agg, fi.where(), "%s forwards (array, inplace, keep_dtype) to the swap unchanged" % name)
+
+
 def r16_4(chk, repo):
-    preds = [(NU + "is_big_endian", "big", "array.dtype.base.byteorder"), (NU + "is_little_endian", "little", "array.dtype.base.byteorder"),
-             ("esutil.recfile.Util.is_little_endian", "little", "dtype.base.byteorder")]
-    for q, kind, src in preds:
+    """decision tables of the endianness predicates over the four order spellings x host order, by evaluation of the predicate
+    (through whatever helpers it calls) on the model"""
+    preds = [(NU + "is_big_endian", "big", "array"), (NU + "is_little_endian", "little", "array"),
+             ("esutil.recfile.Util.is_little_endian", "little", "dtype")]
+    for q, kind, takes in preds:
         fi = repo.func(q)
         chk.analysed_unit(q)
-        # the order character comes from the dtype's base (sub-array fields report their element order)
-        bo = [x for x in walk_no_nested(fi.node) if isinstance(x, ast.Assign) and norm(x.targets[0]) == "byteorder"]
-        chk.ob("R16.4", q + "::order-from-dtype-base", len(bo) == 1 and norm(bo[0].value) == src, fi.where(),
-               "the declared order is read from %s (found %s)" % (src, [norm(b.value) for b in bo]))
-        for host_little in (True, False):
+
+        def want(ch, host_little):
+            if kind == "big":
+                return ch == ">" or (ch == "=" and not host_little)
+            return ch == "<" or (ch == "=" and host_little)
+
+        def evaluate(host, dt):
+            arg = mk_array(host, dt) if takes == "array" else dt
+            st, r = _interp(repo, host).run(fi, [arg])
+            if st == "unrec":
+                return None, r
+            if st == "raise":
+                return "raises", r
+            if _plain(r) and not isinstance(r, (list, dict, set)):
+                return bool(r), repr(r)
+            return "other", repr(r)
+
+        base = _Agg()
+        for host in HOSTS:
+            for ch in ORDERS:
+                sub = MDtype(host, sub=(MDtype(host, ch, "f8"), (3,)))
+                got, text = evaluate(host, sub)
+                base.add(None if got is None else got is want(ch, host),
+                         "%s of a sub-array dtype of %r items on a %s-endian host gives %s" % (fi.name, ch + "f8", _hostname(host), text))
+        _emit(chk, "R16.4", q + "::order-from-dtype-base", base, fi.where(),
+              "the declared order is read from the dtype's base (sub-array dtypes report the order of their items)")
+        for host in HOSTS:
             for ch in ("<", ">", "=", "|"):
-                got = _const_eval_fn(fi, {"np.little_endian": host_little, "numpy.little_endian": host_little, "byteorder": ch})
-                if kind == "big":
-                    want = ch == ">" or (ch == "=" and not host_little)
-                else:
-                    want = ch == "<" or (ch == "=" and host_little)
-                chk.ob("R16.4", "%s[host=%s,order=%r]" % (q, "little" if host_little else "big", ch), got == [want], fi.where(),
-                       "%s on a %s-endian host for declared order %r must be %s (abstract evaluation gives %s)"
-                       % (fi.name, "little" if host_little else "big", ch, want, got))
+                got, text = evaluate(host, mk_plain(host, ch))
+                w = want(ch, host)
+                chk.ob("R16.4", "%s[host=%s,order=%r]" % (q, _hostname(host), ch), None if got is None else got is w, fi.where(),
+                       "%s on a %s-endian host for declared order %r must be %s (evaluation on the model gives %s)" % (fi.name, _hostname(host), ch, w, text))
+    _note_units(chk, repo)
 
 
 def r16_5(chk, repo):
-    strippers = [("esutil.numpy_util.descr_to_native", "descr"), ("esutil.recfile.Util.remove_dtype_byteorder", "dtype.descr"),
+    """the descriptor strippers: result = one tuple per input entry, in order, with name and shape kept and the type string
+    without its first (order) character; the caller's descriptor is left alone"""
+    import copy as _c
+    strippers = [("esutil.numpy_util.descr_to_native", "descr"), ("esutil.recfile.Util.remove_dtype_byteorder", "dtype"),
                  ("esutil.sfile.SFile._remove_byteorder", "descr")]
-    for q, it in strippers:
+    for q, takes in strippers:
         fi = repo.func(q)
         chk.analysed_unit(q)
-        loops = [x for x in walk_no_nested(fi.node) if isinstance(x, ast.For) and norm(x.iter) == it]
-        chk.ob("R16.5", q + "::loops-over-descr", len(loops) == 1, fi.where(), "iterates the descriptor entries in order")
-        if len(loops) != 1:
-            continue
-        lp = loops[0]
-        d = norm(lp.target)
-        # the type string loses exactly its first character
-        strip_ok = False
-        for x in ast.walk(lp):
-            if isinstance(x, ast.Subscript) and isinstance(x.slice, ast.Slice) and x.slice.lower is not None and norm(x.slice.lower) == "1" \
-                    and x.slice.upper is None and x.slice.step is None:
-                base = norm(x.value)
-                if base in ("%s[1]" % d, "nd[1]", "tdef", "newd[1]"):
-                    strip_ok = True
-        chk.ob("R16.5", q + "::drops-order-character-only", strip_ok, fi.where(lp), "the type string keeps everything after its first (order) character: <entry>[1][1:]")
-        # name and shape survive: either the tuple is copied and only index 1 re-assigned, or rebuilt with [0] and [2]
-        copied = any(isinstance(x, ast.Call) and call_name(x) in ("list", "deepcopy", "copy") and any(d in norm(a) for a in x.args) for x in ast.walk(lp))
-        idx1_only = [norm(x.targets[0]) for x in ast.walk(lp) if isinstance(x, ast.Assign) and isinstance(x.targets[0], ast.Subscript)]
-        rebuilt = [x for x in ast.walk(lp) if isinstance(x, ast.Tuple) and len(x.elts) in (2, 3) and norm(x.elts[0]) == d + "[0]"]
-        ok = (copied and all(t.endswith("[1]") for t in idx1_only) and bool(idx1_only)) or \
-            (any(len(t.elts) == 3 and norm(t.elts[2]) == d + "[2]" for t in rebuilt) and any(len(t.elts) == 2 for t in rebuilt))
-        chk.ob("R16.5", q + "::keeps-name-and-shape", ok, fi.where(lp), "field name and sub-array shape are carried over unchanged")
-        app = [x for x in ast.walk(lp) if isinstance(x, ast.Call) and call_name(x) == "append"]
-        chk.ob("R16.5", q + "::one-entry-per-field", len(app) == 1 and not any(isinstance(x, (ast.Continue, ast.Break)) for x in ast.walk(lp)), fi.where(lp),
-               "one output entry is appended per input entry, in order")
+        a_loop, a_strip, a_keep, a_one = _Agg(), _Agg(), _Agg(), _Agg()
+        for host in HOSTS:
+            for order in ORDERS:
+                for lay in ("X", "NX", "XVN", "BWX", "NVWXB"):
+                    dt = mk_dtype(host, lay, order)
+                    descr = dt.descr()
+                    before = _c.deepcopy(descr)
+                    arg = dt if takes == "dtype" else descr
+                    st, r = _interp(repo, host).run(fi, [arg])
+                    what = "%s(%s)" % (fi.name, before)
+                    if st == "unrec":
+                        for a in (a_loop, a_strip, a_keep, a_one):
+                            a.add(None, "%s: %s" % (what, r))
+                        continue
+                    if st == "raise" or not isinstance(r, list) or not all(isinstance(x, (tuple, list)) and len(x) >= 2 for x in r):
+                        for a in (a_loop, a_strip, a_keep, a_one):
+                            a.add(False, what + (" raises " + r if st == "raise" else " returns %r" % (r,)))
+                        continue
+                    a_one.add(len(r) == len(before), what + " returns %d entries for %d fields" % (len(r), len(before)))
+                    a_loop.add([x[0] for x in r] == [x[0] for x in before], what + " returns the fields %s" % [x[0] for x in r])
+                    pairs = list(zip(r, before))
+                    a_strip.add(all(x[1] == b[1][1:] for x, b in pairs), what + " returns the type strings %s" % [x[1] for x in r])
+                    a_keep.add(all(isinstance(x, tuple) and x[0] == b[0] and tuple(x[2:]) == tuple(b[2:]) for x, b in pairs) and descr == before,
+                               what + (" returns %r" % (r,) if descr == before else " modifies the caller's descriptor"))
+        w = fi.where()
+        _emit(chk, "R16.5", q + "::loops-over-descr", a_loop, w, "iterates the descriptor entries in order")
+        _emit(chk, "R16.5", q + "::drops-order-character-only", a_strip, w, "the type string keeps everything after its first (order) character: <entry>[1][1:]")
+        _emit(chk, "R16.5", q + "::keeps-name-and-shape", a_keep, w, "field name and sub-array shape are carried over unchanged, as tuples, without touching the input")
+        _emit(chk, "R16.5", q + "::one-entry-per-field", a_one, w, "one output entry per input entry")
+    _note_units(chk, repo)
 
 
 def r16_6(chk, repo, rule="R16.6", only=None):
-    impls = [("esutil.numpy_util.to_native", "array[fname]"), ("esutil.recfile.Util.to_native_inplace", "array[fname].dtype")]
-    for q, arg in impls:
+    """both to-native implementations: the bytes end up in host order for every declared order, field layout and host, i.e. a
+    swap happens exactly when host order and data order differ"""
+    impls = [("esutil.numpy_util.to_native", True), ("esutil.recfile.Util.to_native_inplace", False)]
+    native = lambda host: "L" if host else "B"
+    for q, flags in impls:
         if only is not None and q != only:
             continue
         fi = repo.func(q)
         chk.analysed_unit(q)
-        # swap decision = machine_little xor data_little
-        conds = [n.ast.test for n in cfg_of(fi).nodes if n.kind == "branch" and "machine_little" in norm(n.ast.test) and "data_little" in norm(n.ast.test)]
-        ok = False
-        for t in conds:
-            tt = norm(t).replace("(", "").replace(")", "")
-            ok = ok or tt in ("machine_little and not data_little or not machine_little and data_little",
-                              "machine_little != data_little", "data_little != machine_little")
-        chk.ob(rule, q + "::swap-iff-host-xor-data", ok, fi.where(), "swap exactly when host order and data order differ (%s)" % [norm(c) for c in conds])
-        # data_little starts False and is only set True on a positive is_little_endian
-        sets = [(norm(x.targets[0]), norm(x.value)) for x in walk_no_nested(fi.node) if isinstance(x, ast.Assign) and norm(x.targets[0]) == "data_little"]
-        ok = ("data_little", "False") in sets and set(v for _, v in sets) <= {"False", "True", "is_little_endian(array)", "is_little_endian(array.dtype)"}
-        chk.ob(rule, q + "::data-order-flag", ok, fi.where(), "data_little defaults to False and is set from is_little_endian only (%s)" % sets)
-        ml = _const_eval_flag(fi, "machine_little")
-        chk.ob(rule, q + "::host-order-flag", ml == {True: True, False: False}, fi.where(), "machine_little mirrors numpy.little_endian (%s)" % ml)
+        run_one = _bytes_in_target(repo, fi, COMBOS if flags else ((True, False),), pass_flags=flags)
+        w = fi.where()
+        a_xor, a_data, a_host = _Agg(), _Agg(), _Agg()
+        plain = _decision_cases(chk, repo, fi, native, run_one, ("plain",))
+        for lay, host, order, need, ok, text in plain:
+            a_xor.add(ok, text)
+        for lay, host, order, need, ok, text in _decision_cases(chk, repo, fi, native, run_one, LAYOUTS_PLAIN + LAYOUTS_NEUTRAL + LAYOUTS_SUB):
+            a_data.add(ok, text)
+        # the decision follows the host: the same explicitly ordered data are swapped on exactly one of the two hosts
+        for order in ("<", ">"):
+            res = {}
+            for host in HOSTS:
+                d0 = mk_plain(host, order)
+                st, a, r = _conv_case(repo, fi, host, d0, True, True, flags)
+                if st != "ok":
+                    res[host] = None
+                    a_host.add(None if st == "unrec" else False, "%s(%r) on a %s-endian host: %s" % (fi.name, d0, _hostname(host), r))
+                else:
+                    res[host] = a.buf.swaps % 2
+            if None not in res.values():
+                a_host.add(res[True] != res[False] and res[True] == (order == ">"),
+                           "%s of %r data swaps %s on a little-endian and %s on a big-endian host" % (fi.name, order, bool(res[True]), bool(res[False])))
+        _emit(chk, rule, q + "::swap-iff-host-xor-data", a_xor, w, "swap exactly when host order and data order differ")
+        _emit(chk, rule, q + "::data-order-flag", a_data, w, "the data order of a structured array is that of its fields with a byte order (any position, "
+              "sub-array items included); string and one-byte fields do not count")
+        _emit(chk, rule, q + "::host-order-flag", a_host, w, "the host order is taken from numpy.little_endian")
     # recfile's in-place converter: swap in place and flip dtype together
     fi = repo.func("esutil.recfile.Util.to_native_inplace")
-    calls = [x for x in walk_no_nested(fi.node) if isinstance(x, ast.Call) and call_name(x) == "byteswap"]
-    ok = len(calls) == 1 and calls[0].args and norm(calls[0].args[0]) == "True"
-    flips = [x for x in walk_no_nested(fi.node) if isinstance(x, ast.Assign) and isinstance(x.targets[0], ast.Attribute) and x.targets[0].attr == "dtype"]
-    okf = len(flips) == 1 and isinstance(flips[0].value, ast.Call) and call_name(flips[0].value) == "newbyteorder"
-    chk.ob(rule, fi.qualname + "::swap-and-flip-paired", ok and okf, fi.where(), "in-place swap and dtype flip occur together in the same branch")
-
-
-def _const_eval_flag(fi, var):
-    out = {}
-    cfg = cfg_of(fi)
-    for host in (True, False):
-        v = cfg.specialise(flags={"np.little_endian": host, "numpy.little_endian": host})
-        vals = set()
-        for n in v.nodes():
-            if n.kind == "stmt" and isinstance(n.ast, ast.Assign) and norm(n.ast.targets[0]) == var and isinstance(n.ast.value, ast.Constant):
-                vals.add(n.ast.value.value)
-        out[host] = next(iter(vals)) if len(vals) == 1 else vals
-    return out
+    agg = _Agg()
+    for host in HOSTS:
+        for order in ORDERS:
+            for lay in ("plain", "X", "NX", "VB"):
+                d0 = mk_dtype(host, lay, order) if lay != "plain" else mk_plain(host, order)
+                st, a, r = _conv_case(repo, fi, host, d0, True, False, False)
+                what = "to_native_inplace(%r) on a %s-endian host" % (d0, _hostname(host))
+                if st != "ok":
+                    agg.add(None if st == "unrec" else False, "%s: %s" % (what, r))
+                    continue
+                need = _resolve(order, host) != native(host)
+                ok = a.buf.swaps == (1 if need else 0) and a.consistent() and a.dtype == (d0.newbyteorder("S") if need else d0)
+                agg.add(ok, what + ": caller's buffer swapped %d time(s), dtype now %r" % (a.buf.swaps, a.dtype))
+    _emit(chk, rule, fi.qualname + "::swap-and-flip-paired", agg, fi.where(),
+          "the swap happens in the caller's buffer and the caller's dtype is flipped together with it (and neither when the data are native)")
+    _note_units(chk, repo)
